@@ -1,0 +1,26 @@
+//go:build verif
+
+// Contracts for the inline client's transaction handle, read by /verif/govc: Commit and Rollback act on
+// the transaction the handle was created for (its id travels in the context), and hand back the use case's
+// error class.
+package db
+
+//@ pure func txOf(t *tx) string = ite(t.id == "", model.MainTxId, t.id)
+
+//@ func (*tx).ctx
+//@   requires nn:      t != nil
+//@   ensures  carries: ctxTxId(result) == txOf(t) && result != nil
+
+//@ func (*tx).Commit
+//@   requires wf:       t != nil && t.txUc != nil && transaction.depsOk(t.txUc)
+//@   modifies world.reg, world.handed
+//@   ensures  ended:    !world.reg[txOf(t)]
+//@   ensures  finished: !old(world.reg[txOf(t)]) ==> result != nil && is(result, fs_db.ErrTxNotFound)
+//@   ensures  others:   forall i string :: i != txOf(t) ==> world.reg[i] == old(world.reg[i])
+
+//@ func (*tx).Rollback
+//@   requires wf:       t != nil && t.txUc != nil && transaction.depsOk(t.txUc)
+//@   modifies world.reg, world.handed
+//@   ensures  noop:     !old(world.reg[txOf(t)]) ==> result == nil
+//@   ensures  ended:    result == nil ==> !world.reg[txOf(t)]
+//@   ensures  others:   forall i string :: i != txOf(t) ==> world.reg[i] == old(world.reg[i])
